@@ -202,6 +202,62 @@ fn xml_mutations(orig: &[u8], thorough: bool) -> Vec<(String, Vec<u8>)> {
             v.push((format!("xml-delete:{i}"), m));
         }
     }
+    // element level: every child element of the root duplicated, removed,
+    // and the first two swapped (an element twice in one message, an empty
+    // message, another order)
+    {
+        let mut spans: Vec<(usize, usize)> = Vec::new();
+        let mut depth = 0i32;
+        let mut start = 0usize;
+        let mut i = 0usize;
+        while i < n {
+            if orig[i] == b'<' {
+                let Some(close) = orig[i..].iter().position(|b| *b == b'>').map(|p| i + p) else { break };
+                let tag = &orig[i..=close];
+                if tag.starts_with(b"<?") || tag.starts_with(b"<!") {
+                    // declaration / comment
+                } else if tag.starts_with(b"</") {
+                    depth -= 1;
+                    if depth == 1 {
+                        spans.push((start, close + 1));
+                    }
+                } else {
+                    if depth == 1 {
+                        start = i;
+                    }
+                    if tag.ends_with(b"/>") {
+                        if depth == 1 {
+                            spans.push((start, close + 1));
+                        }
+                    } else {
+                        depth += 1;
+                    }
+                }
+                i = close + 1;
+            } else {
+                i += 1;
+            }
+        }
+        for (k, (a, b)) in spans.iter().enumerate() {
+            let mut dup = orig[..*b].to_vec();
+            dup.extend_from_slice(&orig[*a..*b]);
+            dup.extend_from_slice(&orig[*b..]);
+            v.push((format!("xml-element-twice:{k}"), dup));
+            let mut del = orig[..*a].to_vec();
+            del.extend_from_slice(&orig[*b..]);
+            v.push((format!("xml-element-removed:{k}"), del));
+        }
+        if spans.len() >= 2 {
+            let (a0, b0) = spans[0];
+            let (a1, b1) = spans[1];
+            let mut sw = orig[..a0].to_vec();
+            sw.extend_from_slice(&orig[a1..b1]);
+            sw.extend_from_slice(&orig[b0..a1]);
+            sw.extend_from_slice(&orig[a0..b0]);
+            sw.extend_from_slice(&orig[b1..]);
+            v.push(("xml-elements-swapped:0:1".into(), sw));
+        }
+    }
     // attribute value menus
     let text = String::from_utf8_lossy(orig).to_string();
     let hostile = [
@@ -676,7 +732,7 @@ struct Hit {
 pub fn run(tier: &Tier, args: &[String]) -> i32 {
     let mut out = Outcome::new("C16", tier, "model_checking");
     out.assumptions = vec![
-        "inputs are the listed structured mutations (every truncation, every single-byte substitution from a menu / deletion / duplication, every attribute, element and JSON leaf replaced by every value of a hostile-value menu, every path parameter replaced by every segment of a menu, all byte strings up to length 1 (quick) / 2 (thorough)) of valid messages; 'every byte string' is not enumerable".into(),
+        "inputs are the listed structured mutations (every child element of an XML message twice / removed / the first two swapped, every truncation, every single-byte substitution from a menu / deletion / duplication, every attribute, element and JSON leaf replaced by every value of a hostile-value menu, every path parameter replaced by every segment of a menu, all byte strings up to length 1 (quick) / 2 (thorough)) of valid messages; 'every byte string' is not enumerable".into(),
         "the harness profile mirrors the release profile's overflow-checks=off; a panic on any thread (recorded by the panic hook) counts, since release builds abort".into(),
         "the API is reached through the daemon's own hyper service over an in-memory pipe; TLS and the socket layer are not exercised".into(),
     ];
@@ -702,6 +758,7 @@ pub fn run(tier: &Tier, args: &[String]) -> i32 {
                 ("up-revoke", Req::Up { key: "A".into(), sender: "alice".into(), recipient: "parent".into(), target: "parent".into(), kind: "revoke_own".into() }),
                 ("pub-list", Req::Pub { key: "A".into(), path: "alice".into(), kind: "list".into() }),
                 ("pub-update", Req::Pub { key: "A".into(), path: "alice".into(), kind: "update_own".into() }),
+                ("pub-withdraw", Req::Pub { key: "A".into(), path: "alice".into(), kind: "withdraw_own".into() }),
             ];
             let mut idx = 0usize;
             let mut n = 0u64;
@@ -729,6 +786,7 @@ pub fn run(tier: &Tier, args: &[String]) -> i32 {
                                 let restore = match target {
                                     "up-revoke" => Some(Req::Up { key: "A".into(), sender: "alice".into(), recipient: "parent".into(), target: "parent".into(), kind: "issue".into() }),
                                     "pub-update" => Some(Req::Pub { key: "A".into(), path: "alice".into(), kind: "restore_own".into() }),
+                                    "pub-withdraw" => Some(Req::Pub { key: "A".into(), path: "alice".into(), kind: "publish_own".into() }),
                                     _ => None,
                                 };
                                 if let Some(rr) = restore
